@@ -151,7 +151,9 @@ Proof.
   intros cs out Hout.
   assert (Hall : Forall in_space cs) by (apply compress_ok_iff; exists out; exact Hout).
   destruct (add_all_spec cs _ root_new Hall) as [t' [Hadd [[Hwf [_ [Hbx Hby]]] _]]].
-  unfold compress in Hout. rewrite Hadd in Hout. simpl in Hout. inversion Hout. subst out.
+  assert (E : out = py_sorted (regions 3 t')).
+  { unfold compress in Hout. rewrite Hadd in Hout. cbn [bind] in Hout. congruence. }
+  clear Hout Hadd. subst out.
   destruct (regions_shape 3 (le_n 3) t' Hwf) as [Hsh Hnd]. split.
   - apply sorted_strict; [apply py_sorted_sorted | apply py_sorted_NoDup_fst; exact Hnd].
   - apply Forall_forall. intros rc Hrc. apply (proj1 (py_sorted_In _ _)) in Hrc.
